@@ -34,7 +34,10 @@ SchemeOf(m) ==
       [] OTHER          -> ""
 
 \* what the client is told: the service's clock, drift seconds behind
-Shifted(now, drift) == AddSec(now, 0 - drift)
+Shifted(now, drift) ==           \* whole days first: now.s - drift must not leave TLC's 32-bit integers
+    LET dd == drift \div 86400
+        r  == drift % 86400
+    IN  AddSec([now EXCEPT !.d = @ - dd], 0 - r)
 
 \* ---- ISO-8601 week date of a day number (days since 1970-01-01, a Thursday) -------------
 Weekday(days) == ((days + 3) % 7) + 1                      \* Monday = 1 .. Sunday = 7
@@ -55,18 +58,18 @@ NtpFracHi(u) == (u * 1024) \div 15625
 Abs(x) == IF x < 0 THEN 0 - x ELSE x
 
 \* ---- clauses over one observed response ---------------------------------------------------
-\* t: [method, now, drift, status, date:[d,s] (Date header), body per method]
+\* t: [method, http ("GET" | "HEAD": a HEAD response is judged by status and Date header only), now, drift, status, date:[d,s] (Date header), body per method]
 X01_Answers(t) == t.status = 200
 X01_DateHeader(t) == LET e == Shifted(t.now, t.drift) IN t.date.d = e.d /\ t.date.s = e.s
-X01_XsdExact(t) == t.method = "xsd" => t.xsd = Shifted(t.now, t.drift)
+X01_XsdExact(t) == (t.method = "xsd" /\ t.http = "GET") => t.xsd = Shifted(t.now, t.drift)
 X01_IsoWeekDate(t) ==
-    t.method = "iso" =>
+    (t.method = "iso" /\ t.http = "GET") =>
         LET e == Shifted(t.now, t.drift)
             w == IsoWeek(e.d)
         IN  /\ t.iso.wy = w.wy /\ t.iso.ww = w.ww /\ t.iso.wd = w.wd
             /\ t.iso.h * 3600 + t.iso.mi * 60 + t.iso.s = e.s
 X01_NtpTimestamp(t) ==
-    t.method = "http-ntp" =>
+    (t.method = "http-ntp" /\ t.http = "GET") =>
         LET e == Shifted(t.now, t.drift)
             n == NtpSeconds(e)
         IN  /\ t.ntp.len = 8
